@@ -10,6 +10,7 @@ case kinds (judged by the oracle and compared with the model unless noted):
   roman      ROMAN(n, 0..4) and ARABIC(ROMAN(n)) (budgeted)       complex    IMREAL/IMAGINARY(COMPLEX(a,b))
   formula    fixed formula text with the expected value or error, through Parser.parse (budgeted)
   hex, base, arabic, misc   model correspondence only (the oracle is silent); misc does not count as non-trivial
+a budgeted call that does not return fails the oracle in every kind (the correspondence-only ones too)
 """
 import math
 import sys
@@ -26,59 +27,75 @@ _EN = ['HEX2DEC', 'DEC2HEX', 'COMPLEX', 'IMREAL', 'IMAGINARY', 'DELTA']
 FUNCTIONS = ['hotxlfp.formulas.mathtrig:%s' % n for n in _MT] + ['hotxlfp.formulas.engineering:%s' % n for n in _EN] + \
     ['hotxlfp.formulas.utils:parse_number', 'hotxlfp.formulas.utils:parse_complex', 'hotxlfp.formulas.utils:any_is_error',
      'hotxlfp.helper.number:to_number']
-RULE = ('seeded counts are quick / thorough (one number: both tiers) and are multiplied by scale, fixed lists and grids are '
-        'not.  round: ROUND/ROUNDUP/ROUNDDOWN x digits -6..6 on 1500 / 12000 seeded numbers per function (ints -30..30, ints '
-        'below 10^8, k*10^j with k < 2000 and j 1..6, dyadic fractions k/2^j with k < 2^20 and j 1..10, exact ties '
-        '(2k+1)*10^j/2 and (2k+1)/8, decimal fractions below 10^4 with 1..4 places, 13 specials such as 0, 0.0, +-0.5, +-1e-7, '
-        '0.1, 1000.1; either sign) plus a grid of 282 per function (every digits x multiples of 10^-digits, the ints next to '
-        'them, eighths); cf: CEILING/FLOOR (2000 / 15000 each; the .MATH and .PRECISE names 1/5 each; 8% one-argument) on the '
-        'same numbers x significance (80% one of 30 fixed ints / dyadic / decimal values of either sign, 18% a seeded number, '
-        '2% 0); unary: INT/EVEN/ODD/SIGN on 24 fixed values (-6..6, 0.0, +-0.5, +-1e-9, +-3.999, ...) and 800 / 6000 seeded '
-        'numbers each; div: QUOTIENT/MOD on a 10 x 11 grid of all sign combinations incl. divisors 0 and 0.0 and 1500 / 12000 '
-        'seeded pairs each (3% divisor 0); fact: FACT on 0..175, FACTDOUBLE on 0..175 and 290..306 (both range ends: 170!/171, '
-        '300!!/301), 34 fixed arguments each (fractions next to the ends: 170.5, 170.9, 300.9, ...; negatives; huge ones 10^6 '
-        '.. 10^30, 1e300, 1.5e308, 2^1024, which must be errors at once) and 40 / 400 seeded each (0..399, around both ends, '
-        'eighths, 10^3..10^39, 1e3..1e299).  round at far-away places (guarded: each call budgeted): digits 307..310, 323, '
-        '324, 400, 1000, 1023..1026, 1073..1076, 1100, 1101, 5000, 10^6, 10^15, 10^30, their negatives and -1030..-1033, '
-        '-1329..-1331, -2001, -2002 (53 values at and beyond the shortcuts of the code: digits > 1074, -digits > max(1024, bit '
-        'length)) x 31 numbers: 0, 0.0, ints of either sign up to 2^53, TRUE, dyadic fractions, +-2^-1022 (smallest normal), '
-        '5e-324 (smallest denormal) and 11 ints beyond the doubles (+-10^310, +-2^1024, 2^1024-1, 2^1030-1, +-2^1030, 10^400, '
+RULE = ('seeded counts are quick / thorough (one number: both tiers) and are multiplied by scale, fixed lists and grids '
+        'are not.  round: ROUND/ROUNDUP/ROUNDDOWN x digits -6..6 on 1500 / 12000 seeded numbers per function (ints '
+        '-30..30, ints below 10^8, k*10^j with k < 2000 and j 1..6, dyadic fractions k/2^j with k < 2^20 and j 1..10, '
+        'exact ties (2k+1)*10^j/2 and (2k+1)/8, decimal fractions below 10^4 with 1..4 places, 13 specials such as 0, '
+        '0.0, +-0.5, +-1e-7, 0.1, 1000.1; either sign) plus a grid of 282 per function (every digits x multiples of '
+        '10^-digits, the ints next to them, eighths); cf: CEILING/FLOOR (2000 / 15000 each; the .MATH and .PRECISE names '
+        '1/5 each; 8% one-argument) on the same numbers x significance (80% one of 30 fixed ints / dyadic / decimal '
+        'values of either sign, 18% a seeded number, 2% 0); unary: INT/EVEN/ODD/SIGN on 24 fixed values (-6..6, 0.0, '
+        '+-0.5, +-1e-9, +-3.999, ...) and 800 / 6000 seeded numbers each; div: QUOTIENT/MOD on a 10 x 11 grid of all sign '
+        'combinations incl. divisors 0 and 0.0 and 1500 / 12000 seeded pairs each (3% divisor 0); fact: FACT on 0..175, '
+        'FACTDOUBLE on 0..175 and 290..306 (both range ends: 170!/171, 300!!/301), 34 fixed arguments each (fractions '
+        'next to the ends: 170.5, 170.9, 300.9, ...; negatives; huge ones 10^6 .. 10^30, 1e300, 1.5e308, 2^1024, which '
+        'must be errors at once) and 40 / 400 seeded each (0..399, around both ends, eighths, 10^3..10^39, 1e3..1e299).  '
+        'round at far-away places (guarded: each call budgeted): digits 307..310, 323, 324, 400, 1000, 1023..1026, '
+        '1073..1076, 1100, 1101, 5000, 10^6, 10^15, 10^30, their negatives and -1030..-1033, -1329..-1331, -2001, -2002 '
+        '(53 values at and beyond the shortcuts of the code: digits > 1074, -digits > max(1024, bit length)) x 31 '
+        'numbers: 0, 0.0, ints of either sign up to 2^53, TRUE, dyadic fractions, +-2^-1022 (smallest normal), 5e-324 '
+        '(smallest denormal) and 11 ints beyond the doubles (+-10^310, +-2^1024, 2^1024-1, 2^1030-1, +-2^1030, 10^400, '
         '7*10^330, 2^2000: bit lengths 1024..2001, digits on both sides of -bit length) - all 1643 pairs for ROUND, for '
         'ROUNDUP/ROUNDDOWN the 2262 pairs within the region where the float intermediates of the code neither overflow, '
-        'underflow nor lose digits (see TRUSTED); plus 60 / 600 seeded per function (number as above or an int below 10^39, '
-        '15% an int in 2^1000..2^1099; digits +- one of 300..329, 1015..1109, 330..4999, 10^4..10^39; ROUNDUP/ROUNDDOWN pairs '
-        'outside that region get digits redrawn beyond a shortcut: 1076..6075 or -(max(1024, bit length) + 1..50)).  hexrt: '
-        'HEX2DEC(DEC2HEX(n)) on 43 boundary values (+-2^39+-3, +-2^40+-3, 0+-3, 15, 16, +-255, +-256, +-10^12), 10^5 / 10^6 '
-        'seeded n of the 40-bit range and 300 seeded +-n in 2^39..2^44; hexout: 6 HEX2DEC texts of more than 40 bits or with a '
-        'minus sign, 6 DEC2HEX numbers outside the range.  basert: DECIMAL(BASE(n,r),r) for every r in 2..36 x 70 / 610 n in '
-        '0..2^39-1 (0, 1, r-1, r, r+1, r^2-1, r^2, a power of r, 2^39-2, 2^39-1, the rest seeded with bit lengths 1..39); '
-        'baseguard: BASE on 9 fixed pairs, 250 / 2000 radices outside 2..36 (14 values -10^6..10^6 incl. 0, 1, 37, 1.5, 0.5, '
-        '36.5, 1.999) x +-n below 10^6, 150 / 1000 negative n with a radix in 2..36.  roman: ROMAN(n,form) for ALL 1..3999 x '
-        'forms 0..4 (complete) with ARABIC(ROMAN(n)).  complex: IMREAL/IMAGINARY(COMPLEX(a,b)) on a 9 x 6 grid of ints (0, '
-        '+-1, .., +-(2^53-1)) and 400 / 3000 seeded pairs below 10^1..10^14 in magnitude.  formula: 86 fixed formulas with '
-        'expected value or error (the statement\'s named behaviours, the repaired defects, the range ends of FACT/FACTDOUBLE, '
-        'far-away digits up to 10^15), through Parser.parse.  Correspondence only (oracle silent): hex (HEX2DEC on 400 / 3000 '
-        'seeded hex texts of 1..11 characters in either case and 17 fixed ones - blank, padded, sign, underscore, 0x/0b '
-        'prefix, tab/newline, 40-bit edge values; DEC2HEX(n, places -1..12) 300 / 2000), base (BASE with places -1..44, '
-        'fractional n, float or half-integral radix, float places: 200 / 1500; DECIMAL on 200 / 1500 seeded texts of 1..8 '
-        'digits of the radix, letters in lower case, 10% admitting the next digit, and on 32 fixed (text, radix) pairs: radix '
-        '0/1/37/-2/float/text, prefixes, sign, blanks, underscores, non-texts, 40-bit edge values), arabic (500 / 4000 seeded '
-        'near-numerals: a classic numeral, half of them with one symbol inserted, or 0..6 random symbols, 15% in lower case; '
-        '29 fixed: empty, MMMM, IIII, IC, trailing newlines, non-texts, repeated subtractive pairs) and misc (812 fixed: ROMAN '
-        'with numbers/forms out of range, IMREAL/IMAGINARY on 29 texts and 5 non-texts, COMPLEX, DELTA, float digits beyond '
-        'the shortcuts, and the argument coercions of every function - numeric and padded text, logicals, blank, error values, '
-        'underscore/0x text, wrong arity).  Texts given to int(text, radix) are ASCII.  Budget: every '
-        'BASE/DECIMAL/ROMAN/ARABIC/FACT/FACTDOUBLE call, every guarded round call and every formula case (the whole parse) '
-        'runs under 100000 line events (all Python frames of the call) AND 5 s of processor time of the process (0.5 s once 5 '
-        'calls have not returned); exceeding either counts as "does not return": an oracle failure (formula cases: see '
-        'ASSUMPTIONS) and a disagreement.  Model: every case is compared with the Lean model (hexrt/basert as one evaluated '
-        'formula, the inner value read from the model\'s call log; roman/complex/formula as formula batches; the rest as '
-        'direct builtin calls; floats within 4 ulp, ints and types exact, model "no opinion" never a disagreement) except '
-        'ROUND(float, digits > 2000) (40 grid pairs and the seeded ones alike: oracle only) and IMREAL/IMAGINARY("1_0") (misc: '
-        'neither).  search (a proof or the correspondence broke, no oracle failure yet): all kinds but hexrt and roman '
-        'regenerated at scale 4, oracle only, stops at the first failure.  Non-trivial = every distinct case of every kind but '
-        'misc (no weights: a case counts once), which includes the correspondence-only kinds hex / base / arabic, '
-        'CEILING/FLOOR with significance 0 and calls that did not return.')
+        'underflow nor lose digits (see TRUSTED); plus 60 / 600 seeded per function (number as above or an int below '
+        '10^39, 15% an int in 2^1000..2^1099; digits +- one of 300..329, 1015..1109, 330..4999, 10^4..10^39; '
+        'ROUNDUP/ROUNDDOWN pairs outside that region get digits redrawn beyond a shortcut: 1076..6075 or -(max(1024, bit '
+        'length) + 1..50)).  hexrt: HEX2DEC(DEC2HEX(n)) on 43 boundary values (+-2^39+-3, +-2^40+-3, 0+-3, 15, 16, +-255, '
+        '+-256, +-10^12), 10^5 / 10^6 seeded n of the 40-bit range and 300 seeded +-n in 2^39..2^44; hexout: 6 HEX2DEC '
+        'texts of more than 40 bits or with a minus sign, 6 DEC2HEX numbers outside the range.  basert: '
+        'DECIMAL(BASE(n,r),r) for every r in 2..36 x 70 / 610 distinct n (60 / 600 times scale, plus 10) in 0..2^39-1 (0, '
+        '1, r-1, r, r+1, r^2-1, r^2, a power of r, 2^39-2, 2^39-1 - two pairs of them coincide for r = 2 -, the rest '
+        'seeded with bit lengths 1..39 until the count is reached); baseguard: BASE on 9 fixed pairs, 250 / 2000 radices '
+        'outside 2..36 (14 values -10^6..10^6 incl. 0, 1, 37, 1.5, 0.5, 36.5, 1.999) x +-n below 10^6 (30% negative), 150 '
+        '/ 1000 negative n above -10^9 with a radix in 2..36.  roman: ROMAN(n,form) for ALL 1..3999 x forms 0..4 (complete) with '
+        'ARABIC(ROMAN(n)).  complex: IMREAL/IMAGINARY(COMPLEX(a,b)) on a 9 x 6 grid of ints (0, +-1, .., +-(2^53-1)) and '
+        '400 / 3000 seeded pairs below 10^1..10^14 in magnitude.  formula: 86 fixed formulas with expected value or error '
+        '(the statement\'s named behaviours, the repaired defects, the range ends of FACT/FACTDOUBLE, far-away digits up '
+        'to 10^15), through Parser.parse.  Correspondence only (oracle silent): hex (HEX2DEC on 400 / 3000 seeded hex '
+        'texts of 1..11 characters in either case and 17 fixed ones - blank, padded, sign, underscore, 0x/0b prefix, '
+        'tab/newline, 40-bit edge values; DEC2HEX(n, places -1..12) 300 / 2000, n half of the 40-bit range, half of 1..39 '
+        'bits), base (BASE with places -1..44, fractional n, float or half-integral radix, float places: 200 / 1500 - a '
+        'seeded n of 1..39 bits and a radix in 2..36; 50% int places -1..44, 20% n + 0.0 / 0.5 / 0.25, 10% the radix as a '
+        'float, 10% n mod 1000 with radix + 0.5 (36 stays 36), 10% float places 0.0..44.0; DECIMAL on 200 / 1500 seeded '
+        'texts of 1..8 digits of the radix, letters in lower case, each character with probability 10% drawn from the '
+        'digits plus the next one (radix 36: plus "A"), and on 32 fixed (text, radix) pairs: radix 0/1/37/-2/float/text, '
+        'prefixes, sign, blanks, underscores, non-texts, 40-bit edge values), arabic (500 / 4000 seeded near-numerals: a '
+        'classic numeral, half of them with one symbol inserted, or 0..6 random symbols, 15% in lower case; 29 fixed: '
+        'empty, MMMM, IIII, IC, trailing newlines, non-texts, repeated subtractive pairs) and misc (812 fixed: ROMAN with '
+        'numbers/forms out of range (19 pairs: also fractional, logical, text, blank ones) and with the form omitted (6 '
+        'numbers), IMREAL/IMAGINARY on 29 texts and 5 non-texts, COMPLEX (6 pairs), DELTA (11 pairs), float digits beyond '
+        'the shortcuts (1074.5, 1075.0, -1024.5, -1025.0, +-5000.25, +-1e300 x 0, 3, -2.5, 0.0 per ROUND* function; not '
+        'guarded: not budgeted), ROUND* of 1234.5678 and 1234 with digits 2.0, -1.0, 0.0, 1.5, TRUE, DEC2HEX with 9 '
+        '(number, places) and BASE with 9 (number, radix, places) triples - float, text, logical, blank, error, too small '
+        'places -, and the argument coercions of every function - 15 odd arguments in each position: numeric and padded '
+        'text, logicals, blank, error values, underscore/0x text; wrong arity: no argument, and 4 arguments where two '
+        'were varied, 3 where one was).  Texts given to int(text, radix) are ASCII.  Budget: every '
+        'BASE/DECIMAL/ROMAN/ARABIC/FACT/FACTDOUBLE call of every kind but formula (base, arabic and misc too; not the '
+        'inner ROMAN(n) with the form omitted whose value is handed to ARABIC in the roman kind), every guarded round '
+        'call and every formula case (the whole parse) runs under 100000 line events (all Python frames of the call) AND '
+        '5 s of processor time of the process (0.5 s once 5 calls have not returned); exceeding either counts as "does '
+        'not return": an oracle failure (in every kind, the correspondence-only ones included; a formula case whatever it '
+        'was expected to give) and a disagreement; once BASE or one of the five ROMAN forms has not returned, the DECIMAL '
+        'resp. ARABIC call of that case is not made.  Model: every case is compared with the Lean model (hexrt/basert as '
+        'one evaluated formula, the inner value read from the model\'s call log - a log of fewer than two calls is a '
+        'disagreement; roman/complex/formula as formula batches - in the complex kind the IMREAL/IMAGINARY values are '
+        'compared and judged, the value of COMPLEX itself is neither; the rest as direct builtin calls; floats within 4 '
+        'ulp, ints and types exact, model "no opinion" never a disagreement) except ROUND(float, digits > 2000) (40 grid '
+        'pairs and the seeded ones alike: oracle only) and IMREAL/IMAGINARY("1_0") (misc: neither).  search (a proof or '
+        'the correspondence broke, no oracle failure yet): all kinds but hexrt and roman regenerated at scale 4, oracle '
+        'only, stops at the first failure.  Non-trivial = every distinct case of every kind but misc (no weights: a case '
+        'counts once), which includes the correspondence-only kinds hex / base / arabic, CEILING/FLOOR with significance '
+        '0 and calls that did not return.')
 TRUSTED = ['Python float arithmetic is modelled by exact rational arithmetic (results compared within 4 ulp; where an argument '
            'is a float and the scaled value within 2^-48 (relative) of an integer, ROUNDUP/ROUNDDOWN/CEILING/FLOOR/QUOTIENT '
            'may land one unit from the model\'s result, MOD within 8 ulp of it or one divisor away); float OVERFLOW is not '
@@ -101,7 +118,14 @@ TRUSTED = ['Python float arithmetic is modelled by exact rational arithmetic (re
            'wall-clock, so that a loaded machine does not turn a fast call into a hang; outside the main thread only line '
            'events are counted' % (100000, 5),
            'the budget exception is a BaseException: Parser.call_function and Parser.parse catch Exception only and let it '
-           'through']
+           'through',
+           'underscores in the text of a float are not modelled (float("1_0") = 10.0): IMREAL/IMAGINARY of a text with an '
+           'underscore is not sent to the model (and, being misc, not judged)',
+           'not budgeted, so trusted to return: ROUND/ROUNDUP/ROUNDDOWN outside the guarded far-away stream (digits -6..6; '
+           'every misc call, float digits beyond the shortcuts included), CEILING/FLOOR, INT/EVEN/ODD/SIGN, QUOTIENT/MOD, HEX2DEC/DEC2HEX, COMPLEX/IMREAL/IMAGINARY, DELTA and the inner '
+           'ROMAN(n) of ARABIC(ROMAN(n))',
+           'the value COMPLEX(a,b) itself is neither judged nor compared in the complex kind (only what IMREAL/IMAGINARY '
+           'make of it; COMPLEX is compared with the model on the misc arguments)']
 ASSUMPTIONS = ['a float argument is judged by the exact value of the double (TRUE as 1); a result may differ from the exact '
                'multiple by 2 ulp of the result; whether a ROUND*/CEILING/FLOOR/MOD result is an int or a float is left to the '
                'model correspondence',
@@ -117,7 +141,8 @@ ASSUMPTIONS = ['a float argument is judged by the exact value of the double (TRU
                'ROUND/ROUNDUP/ROUNDDOWN: where every multiple of 10^-digits the statement admits is beyond the largest double '
                '(ROUNDUP of a non-zero number with digits < -308; any of the three on an int itself beyond the doubles) an '
                'error is accepted as well as the exact integer; for |digits| > 1100 the oracle does not form 10^digits: digits '
-               '> 1100 demands the number itself (every double is a multiple of 2^-1074, hence of 10^-digits), digits < -1100 '
+               '> 1100 demands the number itself (every double is a multiple of 2^-1074, hence of 10^-digits; within 2 ulp for '
+               'an inexact input; an error is not accepted, not for an int beyond the doubles either), digits < -1100 '
                'demands 0 (ROUNDUP of a non-zero number: an error, or the exact int +-10^-digits while -digits <= 10000) for '
                'numbers below 10^1000 in magnitude (larger ones are not generated)',
                'for inputs whose scaled value is not exactly representable (floats whose denominator exceeds 2^12: decimal '
@@ -148,8 +173,8 @@ ASSUMPTIONS = ['a float argument is judged by the exact value of the double (TRU
                '2..36 (fractional ones such as 1.5 and 36.5 too) or a negative number (-0.5 too) must give an error of any '
                'kind',
                'a budgeted call that exceeds a budget is a failure ("every call terminates"); a fixed formula that does not '
-               'return is turned into an error record, so it fails the oracle only where a value was expected (and fails the '
-               'correspondence unless the model has no opinion)']
+               'return is turned into the error record "does not return (budget exceeded)", which fails the oracle whether a '
+               'value or an error was expected (and fails the correspondence unless the model has no opinion)']
 EXHAUSTIVE = {'quick': False, 'thorough': False}
 
 BUDGET = 100000
